@@ -341,7 +341,7 @@ func workerLoop(agg *aggregate, take func() int, kf *findingsFile, deadline time
 	inf.Close()
 	inflightPath := inf.Name()
 	defer os.Remove(inflightPath)
-	cmd.Env = append(os.Environ(), "GORACE=halt_on_error=1 exitcode=66", "GOTRACEBACK=single", "VSIM_INFLIGHT="+inflightPath)
+	cmd.Env = append(os.Environ(), "GORACE=halt_on_error=1 exitcode=66", "GOTRACEBACK=single", "VSIM_INFLIGHT="+inflightPath, "VSIM_SCRATCH="+filepath.Join(scratch, "w"))
 	stdin, _ := cmd.StdinPipe()
 	stdout, _ := cmd.StdoutPipe()
 	var stderr bytes.Buffer
@@ -427,11 +427,13 @@ func workerLoop(agg *aggregate, take func() int, kf *findingsFile, deadline time
 	}
 }
 
+// watchdog: a single run takes milliseconds to (thorough C12) tens of seconds; the limit is generous so that a
+// loaded machine cannot turn a slow run into a verdict.
 func watchdog() time.Duration {
 	if tier == "thorough" {
-		return 600 * time.Second
+		return 1800 * time.Second
 	}
-	return 240 * time.Second
+	return 600 * time.Second
 }
 
 func tailOf(s string, n int) string {
@@ -497,7 +499,7 @@ func execCase(cs []byte) (r *result, died bool, stderrTail string) {
 	f.Close()
 	defer os.Remove(f.Name())
 	cmd := exec.Command(simbin, "exec", f.Name())
-	cmd.Env = append(os.Environ(), "GORACE=halt_on_error=1 exitcode=66", "GOTRACEBACK=single")
+	cmd.Env = append(os.Environ(), "GORACE=halt_on_error=1 exitcode=66", "GOTRACEBACK=single", "VSIM_SCRATCH="+filepath.Join(scratch, "w"))
 	var stderr bytes.Buffer
 	cmd.Stderr = &stderr
 	done := make(chan struct{})
